@@ -570,4 +570,25 @@ theorem colorizer_token (can : Bool) (c0 : Char) (t' s : Str) (hp : ∀ a ∈ c0
   obtain ⟨a', b', e1, _⟩ := colorizer_sim (by simp) (by simp) can ⟨hb.1, hb.1⟩ (fun kv hm => ⟨hb.2 kv hm, hb.2 kv hm⟩) this
   exact ⟨a', b', e1.symm⟩
 
+/-! ## `template % args` (round 4) -/
+
+/-- an ordinary character of the template is copied -/
+theorem pctFormat_cons_ne (c : Char) (r : Str) (as : List Str) (hc : c ≠ '%') :
+    pctFormat (c :: r) as = (pctFormat r as).map (c :: ·) := by
+  rw [pctFormat.eq_def]; simp [hc]
+
+/-- `%s` consumes one argument -/
+theorem pctFormat_s (r : Str) (a : Str) (as : List Str) :
+    pctFormat ('%' :: 's' :: r) (a :: as) = (pctFormat r as).map (a ++ ·) := by
+  rw [pctFormat.eq_def]; simp
+
+/-- a template without `%` and no arguments is returned as it is -/
+theorem pctFormat_plain (t : Str) (ht : '%' ∉ t) : pctFormat t [] = some t := by
+  induction t with
+  | nil => rw [pctFormat.eq_def]; simp
+  | cons c t ih =>
+    have hc : c ≠ '%' := fun e => ht (by simp [e])
+    have ht' : '%' ∉ t := fun m => ht (List.mem_cons_of_mem _ m)
+    rw [pctFormat_cons_ne c t [] hc, ih ht']; rfl
+
 end Sanitise
